@@ -214,16 +214,17 @@ type execRec struct {
 
 // StressSvc is the service of the stress server.
 type StressSvc struct {
-	mu      sync.Mutex
-	execs   map[string]int  // digest of request -> executions
-	order   map[int][]int64 // conn -> (gor<<32|idx) in execution-begin order
-	live    map[int]int
-	overlap map[int]int // conn -> max concurrent handlers
-	total   int64
-	keep    [][]byte // retained argument slices (C11)
-	keepSum []string
-	retain  bool
-	delayNs int64
+	mu        sync.Mutex
+	execs     map[string]int  // digest of request -> executions
+	order     map[int][]int64 // conn -> (gor<<32|idx) in execution-begin order
+	live      map[int]int
+	overlap   map[int]int // conn -> max concurrent handlers
+	total     int64
+	keep      [][]byte // retained argument slices (C11)
+	keepSum   []string
+	retain    bool
+	delayNs   int64
+	pushFirst int
 }
 
 func newStressSvc() *StressSvc {
@@ -721,6 +722,313 @@ func init() {
 		var results []StressResult
 		for _, c := range cfgs {
 			results = append(results, runStress(c))
+			rj, _ := json.MarshalIndent(results, "", " ")
+			os.WriteFile(*out, rj, 0644)
+		}
+	}
+}
+
+// ---------------------------------------------------------------------------
+// Stream scenarios on the real transports (including the poll-mode branch).
+
+// SStream is the stream handler's argument (Blob messages).
+type SStream struct{ s rpc.Stream }
+
+func (h *SStream) Connect(s rpc.Stream) error   { h.s = s; return nil }
+func (h *SStream) Read(b []byte, m *Blob) error { return h.s.ReadMessage(b, m) }
+func (h *SStream) Write(m *Blob) error          { return h.s.WriteMessage(m) }
+
+var (
+	chatStarted, chatReturned int64
+)
+
+// Chat pushes `first` messages at once (first = byte 0 of the first message it would otherwise wait for is not
+// available to a stream handler, so the count comes from the service), then echoes every message it reads,
+// transformed, until the stream is shut down.
+func (s *StressSvc) Chat(st *SStream) error {
+	atomic.AddInt64(&chatStarted, 1)
+	defer atomic.AddInt64(&chatReturned, 1)
+	for i := 0; i < s.pushFirst; i++ {
+		p := make([]byte, 12)
+		binary.LittleEndian.PutUint32(p, uint32(i+1))
+		copy(p[4:], "pushpush")
+		if err := st.Write(&Blob{B: p}); err != nil {
+			return err
+		}
+	}
+	for {
+		var m Blob
+		if err := st.Read(nil, &m); err != nil {
+			return err
+		}
+		if err := st.Write(&Blob{B: transform(m.B)}); err != nil {
+			return err
+		}
+	}
+}
+
+type StreamScenario struct {
+	Name      string `json:"name"`
+	Network   string `json:"network"`
+	Poll      bool   `json:"poll"`
+	Readers   int    `json:"readers"`
+	SrvDirect bool   `json:"srvdirect"`
+	SrvPipe   bool   `json:"srvpipe"`
+	CliDirect bool   `json:"clidirect"`
+	Streams   int    `json:"streams"`
+	PushFirst int    `json:"pushfirst"`
+	Msgs      int    `json:"msgs"`
+	Unary     int    `json:"unary"`
+	End       string `json:"end"` // close (client closes every stream) / drop (client drops the connection) / half (closes one, drops the rest)
+	Frag      int    `json:"frag"`
+	Seed      int64  `json:"seed"`
+}
+
+func runStreamScenario(c StreamScenario) StressResult {
+	res := StressResult{Name: c.Name}
+	t0 := time.Now()
+	fail := func(f string, a ...interface{}) {
+		if len(res.Failures) < 20 {
+			res.Failures = append(res.Failures, fmt.Sprintf(f, a...))
+		}
+	}
+	svc := newStressSvc()
+	svc.pushFirst = c.PushFirst
+	server := rpc.NewServer()
+	server.SetLogLevel(rpc.OffLogLevel)
+	server.RegisterName("S", svc)
+	server.SetPoll(c.Poll)
+	server.SetPipelining(c.SrvPipe)
+	server.SetDirectIO(c.SrvDirect)
+	fs := &fragSocket{seed: c.Seed, maxChunk: c.Frag, readers: c.Readers}
+	addr := sockPath("ss")
+	opts := &rpc.Options{NewCodec: rpc.NewPBCodec}
+	if c.Network == "frag" {
+		opts.NewSocket = func(*tlsConfigT) socket.Socket { return fs }
+	} else {
+		opts.NewSocket = rpc.NewSocket("unix")
+	}
+	go server.ListenWithOptions(addr, opts)
+	var conn *rpc.Conn
+	deadline := time.Now().Add(5 * time.Second)
+	for {
+		var err error
+		conn, err = rpc.DialWithOptions(addr, opts)
+		if err == nil {
+			break
+		}
+		if time.Now().After(deadline) {
+			res.Skipped = "dial failed: " + err.Error()
+			return res
+		}
+		time.Sleep(5 * time.Millisecond)
+	}
+	if c.CliDirect {
+		conn.SetDirectIO(true)
+	}
+	started0, returned0 := atomic.LoadInt64(&chatStarted), atomic.LoadInt64(&chatReturned)
+	var wg sync.WaitGroup
+	streams := make([]rpc.Stream, c.Streams)
+	for i := 0; i < c.Streams; i++ {
+		wg.Add(1)
+		go func(i int) {
+			defer wg.Done()
+			st, err := conn.NewStream("S.Chat")
+			if err != nil {
+				fail("NewStream %d: %v", i, err)
+				return
+			}
+			streams[i] = st
+			r := rand.New(rand.NewSource(c.Seed*131 + int64(i)))
+			var sent [][]byte
+			// the handler's first pushes, in order
+			for k := 0; k < c.PushFirst; k++ {
+				var m Blob
+				if err := readWithin(st, &m, 5*time.Second); err != nil {
+					fail("stream %d: push %d of %d never arrived: %v", i, k+1, c.PushFirst, err)
+					return
+				}
+				if len(m.B) != 12 || binary.LittleEndian.Uint32(m.B) != uint32(k+1) || string(m.B[4:]) != "pushpush" {
+					fail("stream %d: expected push %d, got %d bytes %x", i, k+1, len(m.B), head(m.B))
+					return
+				}
+			}
+			for k := 0; k < c.Msgs; k++ {
+				p := make([]byte, 1+r.Intn(300))
+				r.Read(p)
+				p[0] = byte(i)
+				sent = append(sent, p)
+				if err := st.WriteMessage(&Blob{B: append([]byte(nil), p...)}); err != nil {
+					fail("stream %d: WriteMessage %d: %v", i, k, err)
+					return
+				}
+				if k%3 == 2 || k == c.Msgs-1 { // read the echoes in batches
+					for len(sent) > 0 {
+						var m Blob
+						if err := readWithin(st, &m, 5*time.Second); err != nil {
+							fail("stream %d: echo never arrived: %v", i, err)
+							return
+						}
+						if !bytes.Equal(m.B, transform(sent[0])) {
+							fail("stream %d: message is not the echo of what this stream sent (lost, duplicated, reordered or from another stream): got %d bytes %x want %x", i, len(m.B), head(m.B), head(transform(sent[0])))
+							return
+						}
+						sent = sent[1:]
+					}
+				}
+			}
+		}(i)
+	}
+	// unary traffic and pings interleaved on the same connection
+	for u := 0; u < c.Unary; u++ {
+		wg.Add(1)
+		go func(u int) {
+			defer wg.Done()
+			w := wcall{Conn: 7, Gor: u, Idx: u, Size: 40 + u}
+			p := w.payload(c.Seed)
+			var rep Blob
+			if u%4 == 3 {
+				if err := conn.Ping(); err != nil {
+					fail("ping among stream traffic: %v", err)
+				}
+				return
+			}
+			if err := conn.Call("S.Echo", &Blob{B: p}, &rep); err != nil {
+				fail("unary call among stream traffic: %v", err)
+			} else if !bytes.Equal(rep.B, transform(p)) {
+				fail("unary call among stream traffic got a foreign reply (%d bytes)", len(rep.B))
+			}
+		}(u)
+	}
+	done := make(chan struct{})
+	go func() { wg.Wait(); close(done) }()
+	select {
+	case <-done:
+	case <-time.After(30 * time.Second):
+		fail("stream workload did not finish (blocked)")
+	}
+	res.Calls = c.Streams*(c.Msgs+c.PushFirst) + c.Unary
+	// ---- the end: every handler must return
+	waitStarted := time.Now().Add(2 * time.Second)
+	for atomic.LoadInt64(&chatStarted)-started0 < int64(c.Streams) && time.Now().Before(waitStarted) {
+		time.Sleep(time.Millisecond)
+	}
+	nstarted := atomic.LoadInt64(&chatStarted) - started0
+	blockedReaders := int64(0)
+	switch c.End {
+	case "close", "half":
+		for i, st := range streams {
+			if st == nil || (c.End == "half" && i > 0) {
+				continue
+			}
+			// a reader blocked on the stream must be released by Close
+			rd := make(chan error, 1)
+			go func(st rpc.Stream) { var m Blob; rd <- st.ReadMessage(nil, &m) }(st)
+			time.Sleep(time.Millisecond)
+			cerr := make(chan error, 1)
+			go func(st rpc.Stream) { cerr <- st.Close() }(st)
+			select {
+			case err := <-rd:
+				if err != rpc.ErrStreamShutdown {
+					fail("stream %d: blocked ReadMessage returned %v after Close, want ErrStreamShutdown", i, err)
+				}
+			case <-time.After(3 * time.Second):
+				atomic.AddInt64(&blockedReaders, 1)
+				fail("stream %d: ReadMessage still blocked 3 s after Close", i)
+			}
+			select {
+			case <-cerr:
+			case <-time.After(3 * time.Second):
+				fail("stream %d: Close did not return within 3 s", i)
+			}
+			if err := st.WriteMessage(&Blob{B: []byte{1}}); err != rpc.ErrStreamShutdown {
+				fail("stream %d: WriteMessage after Close returned %v, want ErrStreamShutdown", i, err)
+			}
+			if c.End == "half" && len(streams) > 1 && streams[1] != nil {
+				// the sibling is undisturbed
+				p := []byte{9, 9, 9}
+				if err := streams[1].WriteMessage(&Blob{B: p}); err != nil {
+					fail("sibling stream disturbed by closing stream 0: %v", err)
+				} else {
+					var m Blob
+					if err := readWithin(streams[1], &m, 3*time.Second); err != nil || !bytes.Equal(m.B, transform(p)) {
+						fail("sibling stream disturbed by closing stream 0: echo %v %x", err, head(m.B))
+					}
+				}
+			}
+		}
+	}
+	if c.End != "close" {
+		// readers blocked on the remaining streams when the connection is dropped
+		var rds []chan error
+		for i, st := range streams {
+			if st == nil || (c.End == "half" && i == 0) {
+				continue
+			}
+			ch := make(chan error, 1)
+			rds = append(rds, ch)
+			go func(st rpc.Stream) { var m Blob; ch <- st.ReadMessage(nil, &m) }(st)
+		}
+		time.Sleep(2 * time.Millisecond)
+		conn.Close()
+		for _, ch := range rds {
+			select {
+			case err := <-ch:
+				if err != rpc.ErrStreamShutdown {
+					fail("blocked client ReadMessage returned %v after the connection was closed, want ErrStreamShutdown", err)
+				}
+			case <-time.After(3 * time.Second):
+				fail("a client ReadMessage is still blocked 3 s after the connection was closed")
+			}
+		}
+	}
+	hdead := time.Now().Add(3 * time.Second)
+	for atomic.LoadInt64(&chatReturned)-returned0 < nstarted && time.Now().Before(hdead) {
+		time.Sleep(time.Millisecond)
+	}
+	if got := atomic.LoadInt64(&chatReturned) - returned0; got < nstarted {
+		fail("%d of %d stream handlers still blocked 3 s after their streams were closed / the connection was dropped (server mode poll=%v)", nstarted-got, nstarted, c.Poll)
+	}
+	if c.End == "close" {
+		conn.Close()
+	}
+	if !c.Poll {
+		server.Close()
+	}
+	res.WallMs = time.Since(t0).Milliseconds()
+	return res
+}
+
+func readWithin(st rpc.Stream, m *Blob, d time.Duration) error {
+	ch := make(chan error, 1)
+	go func() { ch <- st.ReadMessage(nil, m) }()
+	select {
+	case err := <-ch:
+		return err
+	case <-time.After(d):
+		return errors.New("timeout")
+	}
+}
+
+func init() {
+	commands["sstress"] = func(args []string) {
+		fs := flag.NewFlagSet("sstress", flag.ExitOnError)
+		in := fs.String("in", "", "scenarios (JSON array)")
+		out := fs.String("out", "", "results (JSON array)")
+		fs.Parse(args)
+		data, err := os.ReadFile(*in)
+		if err != nil {
+			fmt.Fprintln(os.Stderr, err)
+			os.Exit(2)
+		}
+		var cfgs []StreamScenario
+		if err := json.Unmarshal(data, &cfgs); err != nil {
+			fmt.Fprintln(os.Stderr, "bad scenarios:", err)
+			os.Exit(2)
+		}
+		var results []StressResult
+		for _, c := range cfgs {
+			results = append(results, runStreamScenario(c))
 			rj, _ := json.MarshalIndent(results, "", " ")
 			os.WriteFile(*out, rj, 0644)
 		}
